@@ -34,6 +34,10 @@ DevsFor(ds) ==
   \cup {Dev("leaf_kernel_recommit", 0, t, 0, d) : t \in SomePos(0), d \in ds}
   \cup {Dev("init_path", o, t, 0, 0) : o \in {Orc[p] : p \in 1..NPolys}, t \in {1, N - 2}}
   \cup UNION {{Dev("layer_path", l, t, 0, 0) : t \in {0, LSize(l + 1) - 1}} : l \in Layers}
+  \* cap entries: j = path length; j = 0 is the "tree height = cap height" sub-case (empty Merkle path)
+  \cup UNION {{Dev("layer_cap", l, t, j, 1) : j \in {0, 1}, t \in {0, 1}} : l \in Layers}
+  \cup {Dev("init_cap", o, t, j, 1) : o \in {Orc[p] : p \in 1..NPolys}, j \in {0, 1}, t \in {0, 2}}
+  \cup {Dev("coset_forge", NL - 1, t, 0, d) : t \in SomePos(NL - 1), d \in ds}
   \cup UNION {{Dev("coset_edit", l, t, 0, d) : t \in SomePos(l), d \in ds} : l \in Layers}
   \cup UNION {{Dev("coset_recommit", l, t, 0, d) : t \in SomePos(l), d \in ds} : l \in Layers}
   \cup {Dev("high_degree", 0, dg, j, d) : dg \in (n + 1)..(N - 1), j \in {1, 2}, d \in ds}
